@@ -4618,13 +4618,28 @@ mod_webdav_put_0 (request_st * const r, const plugin_config * const pconf)
         /*(attempt unlink(); target might be symlink
          * and above O_NOFOLLOW resulted in ELOOP)*/
 
-    fd = fdevent_open_cloexec(r->physical.path.ptr, 0,
-                              O_WRONLY | O_CREAT | O_TRUNC,
-                              WEBDAV_FILE_MODE);
-    if (fd >= 0) {
+    /* replace existing file with new, empty file via rename()
+     * (do not truncate in place: file might be hard-linked by prior COPY
+     *  and might be open and cached in stat_cache) */
+    buffer * const tmpb = pconf->tmpb;
+    buffer_clear(tmpb);
+    buffer_append_str2(tmpb, BUF_PTR_LEN(&r->physical.path),
+                             CONST_STR_LEN("."));
+    buffer_append_int(tmpb, (long)getpid());
+    buffer_append_char(tmpb, '.');
+    buffer_append_uint_hex_lc(tmpb, (uintptr_t)pconf); /*(stack/heap addr)*/
+    buffer_append_char(tmpb, '~');
+    if (buffer_clen(tmpb) < PATH_MAX
+        && (fd = fdevent_open_cloexec(tmpb->ptr, 0,
+                                      O_WRONLY | O_CREAT | O_EXCL | O_TRUNC,
+                                      WEBDAV_FILE_MODE)) >= 0) {
         close(fd);
-        http_status_set_fin(r, 204); /* No Content */
-        return HANDLER_FINISHED;
+        if (0 == rename(tmpb->ptr, r->physical.path.ptr)) {
+            stat_cache_delete_entry(BUF_PTR_LEN(&r->physical.path));
+            http_status_set_fin(r, 204); /* No Content */
+            return HANDLER_FINISHED;
+        }
+        unlink(tmpb->ptr);
     }
 
     http_status_set_error(r, 500); /* Internal Server Error */
